@@ -404,4 +404,420 @@ theorem inv2_putChunk (c : Cfg α) (D : Nat → Nat → α) (hwf : WF c) (s : St
           rw [if_neg (by simp [hm])] at this
           exact this }
 
+theorem inv2_snapPhase (c : Cfg α) (D : Nat → Nat → α) (hwf : WF c) (f : Bool) (s : State α) (hf : f = true → s.closed = true)
+    (hi : Inv2 c D s) : Inv2 c D (snapPhase c f s) := by
+  refine inv2_replace_el c D s _ hi (fun k hk => ?_)
+  have L := hi.loc k hk
+  unfold snapEl
+  split
+  · rename_i hc
+    simp only [Bool.and_eq_true, decide_eq_true_eq, Bool.not_eq_true', Bool.or_eq_true] at hc
+    obtain ⟨⟨⟨⟨⟨hm, _⟩, hkind⟩, hw⟩, hnb⟩, hfc⟩ := hc
+    exact {
+      doneLen := L.doneLen
+      bytesOk := fun b hbe => by
+        simp only [Option.some.injEq] at hbe
+        subst hbe
+        exact ⟨rfl, fun q hq => L.storeOk hm hkind q hq⟩
+      bytesStable := fun _ => by
+        rcases hfc with h | h
+        · exact Or.inl (hf h)
+        · right
+          have h1 := L.countOk hkind
+          have h2 := hwf.sizeRows k hk
+          have h3 := hwf.rowPos k hk
+          rw [h1, h2, Nat.mul_comm (c.item k).rows] at h
+          exact Nat.eq_of_mul_eq_mul_left h3 h
+      storeOk := L.storeOk
+      countOk := L.countOk
+      noBytesNoRows := fun _ h => absurd hkind h
+      itemRd := L.itemRd }
+  · exact L
+
+theorem inv2_set_closed (c : Cfg α) (D : Nat → Nat → α) (s : State α) (hi : Inv2 c D s) : Inv2 c D { s with closed := true } where
+  loc := fun k hk => localOk_frame c D _ _ s.ws _ k _ (hi.loc k hk) (fun _ => rfl) (fun _ _ => rfl)
+  glob := hi.glob
+
+theorem inv2_hdrPhase (c : Cfg α) (D : Nat → Nat → α) (hwf : WF c) (s : State α) (hi1 : Inv1 c s) (hi : Inv2 c D s) :
+    Inv2 c D (hdrPhase c s) := by
+  unfold hdrPhase
+  cases hh : s.hdrWritten with
+  | true => simpa using hi
+  | false =>
+    simp only [Bool.false_eq_true, if_false]
+    have hp := (hi1.hdr0 hh).1
+    have G := hi.glob
+    rw [hh] at G
+    have hfit := hwf.hdrFits
+    exact {
+      loc := fun k hk => by
+        refine localOk_frame c D _ _ s.ws _ k _ (hi.loc k hk) id (fun q hq => ?_)
+        have := hwf.afterXml k hk
+        rw [hp]
+        simp only [hdrWrites, List.cons_append, List.nil_append, rdW_cons_mk]
+        rw [if_neg (by omega), if_neg (by omega), if_neg (by omega), if_neg (by omega)]
+      glob := by
+        rw [hp]
+        simp only [hdrWrites, List.cons_append, List.nil_append]
+        exact {
+          hdrRd := fun p hpp => by
+            simp only [rdW_cons_mk]
+            rw [if_neg (by omega), if_neg (by omega), if_neg (by omega), if_pos (by omega)]
+            simp
+          term1Rd := fun p hpp => by
+            simp only [rdW_cons_mk]
+            rw [if_neg (by omega), if_neg (by omega), if_pos (by omega)]
+            simp
+          xmlRd := fun p hpp => by
+            simp only [rdW_cons_mk]
+            rw [if_neg (by omega), if_pos (by omega)]
+            simp
+          term2Rd := fun p hpp => by
+            simp only [rdW_cons_mk]
+            rw [if_pos (by omega)]
+            simp [Nat.add_sub_cancel_left]
+          padRd := fun p hpp => by
+            have h1 := hpp.1
+            have h2 := hpp.2.1
+            simp only [rdW_cons_mk]
+            rw [if_neg (by omega), if_neg (by omega), if_neg (by omega), if_neg (by omega)]
+            have := G.padRd p hpp
+            simpa using this } }
+
+/-- a pending element's write covers exactly the element's range -/
+theorem covers_itemWrite (c : Cfg α) (D : Nat → Nat → α) (s : State α) (hi : Inv2 c D s) (j p : Nat) (hj : j ∈ todo c s)
+    (h : covers (itemWrite c s.el j) p) : (c.item j).off ≤ p ∧ p < (c.item j).off + (c.item j).size := by
+  obtain ⟨hjn, _, hb⟩ := (mem_todo c s j).mp hj
+  cases hbe : (s.el j).bytes with
+  | none => rw [hbe] at hb; simp at hb
+  | some b =>
+    have := ((hi.loc j hjn).bytesOk b hbe).1
+    simp only [covers, itemWrite, hbe, Option.getD_some] at h
+    omega
+
+theorem inv2_itemsPhase (c : Cfg α) (D : Nat → Nat → α) (hwf : WF c) (s : State α) (hi : Inv2 c D s) :
+    Inv2 c D (itemsPhase c s) := by
+  have hws : (itemsPhase c s).ws = ((todo c s).map (itemWrite c s.el)).reverse ++ s.ws := rfl
+  have hnc : ∀ p, (∀ j, j ∈ todo c s → ¬ ((c.item j).off ≤ p ∧ p < (c.item j).off + (c.item j).size)) →
+      rdW c.zero (itemsPhase c s).ws p = rdW c.zero s.ws p := by
+    intro p hp
+    rw [hws, rdW_append_not_covered]
+    intro w hw
+    simp only [List.mem_reverse, List.mem_map] at hw
+    obtain ⟨j, hj, rfl⟩ := hw
+    exact fun hcov => hp j hj (covers_itemWrite c D s hi j p hj hcov)
+  exact {
+    loc := fun k hk => by
+      have L := hi.loc k hk
+      by_cases hkt : k ∈ todo c s
+      · obtain ⟨_, hw, hb⟩ := (mem_todo c s k).mp hkt
+        have hel : (itemsPhase c s).el k = { s.el k with written := true } := by
+          simp only [itemsPhase]
+          rw [if_pos ⟨hk, by simp [pending, hw, hb]⟩]
+        rw [hel]
+        cases hbe : (s.el k).bytes with
+        | none => rw [hbe] at hb; simp at hb
+        | some b =>
+          obtain ⟨hbl, hbg⟩ := L.bytesOk b hbe
+          exact {
+            doneLen := L.doneLen
+            bytesOk := L.bytesOk
+            bytesStable := L.bytesStable
+            storeOk := L.storeOk
+            countOk := L.countOk
+            noBytesNoRows := L.noBytesNoRows
+            itemRd := fun q hq => by
+              rw [if_neg (by simp), hws]
+              rw [rdW_items_covered c.zero (itemWrite c s.el) (todo c s) s.ws _ k hkt]
+              · simp only [itemWrite, hbe, Option.getD_some, Nat.add_sub_cancel_left]
+                exact hbg q hq
+              · simp only [covers, itemWrite, hbe, Option.getD_some]; omega
+              · intro j hj hne hcov
+                have hjr := covers_itemWrite c D s hi j _ hj hcov
+                have := hwf.disjoint j k ((mem_todo c s j).mp hj).1 hk hne
+                omega }
+      · have hel : (itemsPhase c s).el k = s.el k := by
+          simp only [itemsPhase]
+          rw [if_neg]
+          intro h
+          apply hkt
+          rw [mem_todo]
+          simp only [pending, Bool.and_eq_true, Bool.not_eq_true'] at h
+          exact ⟨hk, h.2.1, h.2.2⟩
+        rw [hel]
+        refine localOk_frame c D _ _ s.ws _ k _ L id (fun q hq => hnc _ (fun j hj hr => ?_))
+        have hne : j ≠ k := fun e => hkt (e ▸ hj)
+        have := hwf.disjoint j k ((mem_todo c s j).mp hj).1 hk hne
+        omega
+    glob := by
+      refine globalOk_frame c _ s.ws _ hi.glob ?_ ?_ ?_
+      · intro p hp
+        refine hnc p (fun j hj hr => ?_)
+        have := hwf.afterXml j ((mem_todo c s j).mp hj).1; have := hwf.hdrFits
+        omega
+      · intro p hp1 hp2
+        refine hnc p (fun j hj hr => ?_)
+        have := hwf.afterXml j ((mem_todo c s j).mp hj).1
+        omega
+      · intro p hp
+        exact hnc p (fun j hj hr => hp.2.2 j ((mem_todo c s j).mp hj).1 hr) }
+
+theorem inv2_flushCore (c : Cfg α) (D : Nat → Nat → α) (hwf : WF c) (f : Bool) (s : State α) (hf : f = true → s.closed = true)
+    (hi1 : Inv1 c s) (hi : Inv2 c D s) : Inv2 c D (flushCore c f s) :=
+  inv2_itemsPhase c D hwf _ (inv2_hdrPhase c D hwf _ (inv1_snapPhase c f s hi1) (inv2_snapPhase c D hwf f s hf hi))
+
+theorem flushCore_set_closed (c : Cfg α) (f : Bool) (s : State α) :
+    ({ flushCore c f s with closed := true } : State α) = flushCore c f { s with closed := true } := by
+  unfold flushCore itemsPhase hdrPhase snapPhase todo
+  cases s.hdrWritten <;> rfl
+
+theorem inv2_markCanReg (c : Cfg α) (D : Nat → Nat → α) (s : State α) (i : Nat) (hi : Inv2 c D s) : Inv2 c D (markCanReg c s i) := by
+  unfold markCanReg
+  split
+  · by_cases hk : c.sigIdx i < c.n
+    · have L := hi.loc _ hk
+      exact inv2_setEl c D s _ _ hi
+        { doneLen := L.doneLen, bytesOk := L.bytesOk, bytesStable := L.bytesStable, storeOk := L.storeOk, countOk := L.countOk,
+          noBytesNoRows := L.noBytesNoRows, itemRd := L.itemRd }
+    · refine inv2_replace_el c D s _ hi (fun j hj => ?_)
+      simp only [setEl]
+      rw [if_neg (fun (e : j = c.sigIdx i) => hk (e ▸ hj))]
+      exact hi.loc j hj
+  · exact hi
+
+theorem kind_pvp (c : Cfg α) (hwf : WF c) (i : Nat) (h : i < c.nchan) : (c.item i).kind ≠ .signal := by
+  intro hs
+  have := (hwf.kinds i (pvpIdx_lt c i h)).mp hs
+  omega
+
+theorem kind_sup (c : Cfg α) (hwf : WF c) (j : Nat) (h : j < c.nsup) : (c.item (c.supIdx j)).kind ≠ .signal := by
+  intro hs
+  have := (hwf.kinds _ (supIdx_lt c j h)).mp hs
+  unfold Cfg.supIdx at this
+  omega
+
+theorem kind_sig (c : Cfg α) (hwf : WF c) (i : Nat) (h : i < c.nchan) : (c.item (c.sigIdx i)).kind = .signal :=
+  (hwf.kinds _ (sigIdx_lt c i h)).mpr (by unfold Cfg.sigIdx; omega)
+
+/-- **one step preserves the image invariant** when its data agrees with `D` and (signal chunks) touches unwritten rows only -/
+theorem inv2_step (c : Cfg α) (D : Nat → Nat → α) (hwf : WF c) (s : State α) (op : Op α) (hag : Agree c D op) (hfr : Fresh c s op)
+    (hi1 : Inv1 c s) (hi : Inv2 c D s) : Inv2 c D (step c s op).1 := by
+  cases op with
+  | writePvp i d =>
+    simp only [step]
+    split
+    · exact hi
+    · rename_i hb
+      simp only [pvpBad, not_or, Decidable.not_not] at hb
+      exact inv2_putData c D hwf _ i d (pvpIdx_lt c i hb.2.1) (kind_pvp c hwf i hb.2.1) hb.2.2 hag
+        (inv1_markCanReg c s i hi1) (inv2_markCanReg c D s i hi)
+  | writeSup j d =>
+    simp only [step]
+    split
+    · exact hi
+    · rename_i hb
+      simp only [supBad, not_or, Decidable.not_not] at hb
+      exact inv2_putData c D hwf _ _ d (supIdx_lt c j hb.2.1) (kind_sup c hwf j hb.2.1) hb.2.2 hag hi1 hi
+  | writeSig i r0 d raw =>
+    simp only [step]
+    split
+    · exact hi
+    · rename_i hb
+      have hfresh := hfr.resolve_left hb
+      simp only [sigBad, not_or, Decidable.not_not] at hb
+      obtain ⟨hi', _, hcl, _, hne, hmod, hfit⟩ := hb
+      exact inv2_putChunk c D hwf s _ r0 d (sigIdx_lt c i hi') (kind_sig c hwf i hi') (by simpa using hcl) hne hmod (by omega)
+        hag hfresh hi1 hi
+  | flush =>
+    simp only [step]
+    split
+    · exact hi
+    · exact inv2_flushCore c D hwf false s (fun h => by simp at h) hi1 hi
+  | close =>
+    simp only [step]
+    split
+    · exact hi
+    · rw [flushCore_set_closed]
+      exact inv2_flushCore c D hwf true _ (fun _ => rfl)
+        (inv1_same_delivered c s _ hi1 rfl rfl rfl (fun _ => rfl) (fun _ _ => rfl)) (inv2_set_closed c D s hi)
+
+/-- **the image invariant holds after every good history** -/
+theorem inv2_run (c : Cfg α) (D : Nat → Nat → α) (hwf : WF c) (s : State α) (ops : List (Op α)) (hg : GoodRun c D s ops)
+    (hi1 : Inv1 c s) (hi : Inv2 c D s) : Inv2 c D (run c s ops) := by
+  induction ops generalizing s with
+  | nil => exact hi
+  | cons op ops ih =>
+    obtain ⟨ha, hf, hrest⟩ := hg
+    exact ih _ hrest (inv1_step c s op hi1) (inv2_step c D hwf s op ha hf hi1 hi)
+
+/-! ### closed states -/
+
+/-- what holds in every closed state: header written, every populated element written, in memory every signal array written -/
+def ClosedOk (c : Cfg α) (s : State α) : Prop :=
+  s.closed = true → s.hdrWritten = true ∧ ∀ k, k < c.n →
+    (((s.el k).bytes.isSome = true → (s.el k).written = true) ∧ (c.inMem = true → (c.item k).kind = .signal → (s.el k).written = true))
+
+theorem putData_closed (c : Cfg α) (s : State α) (k : Nat) (d : Blk α) : (putData c s k d).1.closed = s.closed := by
+  unfold putData; split
+  · split <;> rfl
+  · rfl
+
+theorem markCanReg_closed (c : Cfg α) (s : State α) (i : Nat) : (markCanReg c s i).closed = s.closed := by
+  unfold markCanReg; split <;> rfl
+
+theorem putChunk_closed (c : Cfg α) (s : State α) (k r0 : Nat) (d : Blk α) : (putChunk c s k r0 d).closed = s.closed := by
+  unfold putChunk; split <;> rfl
+
+theorem flushCore_closed (c : Cfg α) (f : Bool) (s : State α) : (flushCore c f s).closed = s.closed := by
+  unfold flushCore itemsPhase hdrPhase snapPhase
+  cases s.hdrWritten <;> rfl
+
+theorem closedOk_step (c : Cfg α) (s : State α) (op : Op α) (h : ClosedOk c s) : ClosedOk c (step c s op).1 := by
+  by_cases hc : s.closed = true
+  · rw [step_closed_state c s hc op]; exact h
+  · have hc' : s.closed = false := by simpa using hc
+    cases op with
+    | writePvp i d =>
+      intro hcl
+      simp only [step] at hcl
+      split at hcl
+      · exact absurd hcl hc
+      · rw [putData_closed, markCanReg_closed] at hcl; exact absurd hcl hc
+    | writeSup j d =>
+      intro hcl
+      simp only [step] at hcl
+      split at hcl
+      · exact absurd hcl hc
+      · rw [putData_closed] at hcl; exact absurd hcl hc
+    | writeSig i r0 d raw =>
+      intro hcl
+      simp only [step] at hcl
+      split at hcl
+      · exact absurd hcl hc
+      · rw [putChunk_closed] at hcl; exact absurd hcl hc
+    | flush =>
+      intro hcl
+      simp only [step, hc', Bool.false_eq_true, if_false] at hcl
+      rw [flushCore_closed] at hcl; exact absurd hcl hc
+    | close =>
+      intro _
+      refine ⟨?_, fun k hk => ⟨fun hb => close_delivers c s hc' k hk hb, fun hm hs => close_delivers_signal_mem c s hc' hm k hk hs⟩⟩
+      simp only [step, hc', Bool.false_eq_true, if_false]
+      unfold flushCore itemsPhase
+      exact hdrPhase_hdrWritten c _
+
+theorem closedOk_run (c : Cfg α) (s : State α) (ops : List (Op α)) (h : ClosedOk c s) : ClosedOk c (run c s ops) := by
+  induction ops generalizing s with
+  | nil => exact h
+  | cons op ops ih => exact ih _ (closedOk_step c s op h)
+
+theorem closedOk_init (c : Cfg α) : ClosedOk c (init c) := fun h => by simp [init] at h
+
+/-! ### the final image -/
+
+/-- **the image after close**, for any good history (any order of the calls, any chunking of the signal, any placement of flushes,
+    refused calls in between, either protocol): every byte of an element shows the intended content where its row was written and zero
+    elsewhere; header text, terminators and XML are in place; all padding is zero -/
+theorem final_image (c : Cfg α) (D : Nat → Nat → α) (hwf : WF c) (ops : List (Op α)) (hg : GoodRun c D (init c) ops)
+    (hcl : (run c (init c) ops).closed = true) :
+    (∀ k, k < c.n → ∀ q, q < (c.item k).size →
+        rd c (run c (init c) ops) ((c.item k).off + q) = cellOf c D ((run c (init c) ops).el k) k q) ∧
+    (∀ p, p < c.hdr.len → rd c (run c (init c) ops) p = c.hdr.get p) ∧
+    (∀ p, p < c.term.len → rd c (run c (init c) ops) (c.hdr.len + p) = c.term.get p) ∧
+    (∀ p, p < c.xml.len → rd c (run c (init c) ops) (c.xmlOff + p) = c.xml.get p) ∧
+    (∀ p, p < c.term.len → rd c (run c (init c) ops) (c.xmlOff + c.xml.len + p) = c.term.get p) ∧
+    (∀ p, Outside c p → rd c (run c (init c) ops) p = c.zero) := by
+  have hi := inv2_run c D hwf (init c) ops hg (inv1_init c) (inv2_init c D)
+  have hcok := closedOk_run c (init c) ops (closedOk_init c) hcl
+  generalize run c (init c) ops = s at hi hcok hcl
+  obtain ⟨hh, hk⟩ := hcok
+  have G := hi.glob
+  rw [hh] at G
+  refine ⟨fun k hkn q hq => ?_, fun p hp => by simpa [rd] using G.hdrRd p hp, fun p hp => by simpa [rd] using G.term1Rd p hp,
+    fun p hp => by simpa [rd] using G.xmlRd p hp, fun p hp => by simpa [rd] using G.term2Rd p hp, fun p hp => G.padRd p hp⟩
+  have L := hi.loc k hkn
+  unfold rd
+  rw [L.itemRd q hq]
+  split
+  · rename_i h
+    obtain ⟨hm, hw⟩ := h
+    -- in memory and not written: never populated, not a signal array, so no row is marked
+    have hnb : (s.el k).bytes = none := by
+      cases hb : (s.el k).bytes with
+      | none => rfl
+      | some b => have := (hk k hkn).1 (by simp [hb]); rw [hw] at this; simp at this
+    have hns : (c.item k).kind ≠ .signal := fun hs => by
+      have := (hk k hkn).2 hm hs; rw [hw] at this; simp at this
+    have := L.noBytesNoRows hm hns hnb
+    simp [cellOf, rowDone_of_zero _ this]
+  · rfl
+
+/-- every row of every element has been written -/
+def Complete (c : Cfg α) (s : State α) : Prop := ∀ k, k < c.n → cntRows (s.el k).done = (c.item k).rows
+
+/-- the file the metadata and the data describe: header text, terminator, zero padding, XML, terminator, zero padding, and every element
+    at its offset -/
+def imageOf (c : Cfg α) (D : Nat → Nat → α) (p : Nat) : α :=
+  if p < c.hdr.len then c.hdr.get p
+  else if p < c.hdr.len + c.term.len then c.term.get (p - c.hdr.len)
+  else if c.xmlOff ≤ p ∧ p < c.xmlOff + c.xml.len then c.xml.get (p - c.xmlOff)
+  else if c.xmlOff + c.xml.len ≤ p ∧ p < c.xmlOff + c.xml.len + c.term.len then c.term.get (p - (c.xmlOff + c.xml.len))
+  else match (List.range c.n).find? (fun k => decide ((c.item k).off ≤ p ∧ p < (c.item k).off + (c.item k).size)) with
+       | some k => D k (p - (c.item k).off)
+       | none => c.zero
+
+/-- **complete histories**: after any good history that wrote every array and every signal row and closed, the file is `imageOf c D` at
+    every position - whatever the order of the calls, the chunking, the flushes and the protocol were -/
+theorem complete_image (c : Cfg α) (D : Nat → Nat → α) (hwf : WF c) (ops : List (Op α)) (hg : GoodRun c D (init c) ops)
+    (hcl : (run c (init c) ops).closed = true) (hco : Complete c (run c (init c) ops)) (p : Nat) :
+    rd c (run c (init c) ops) p = imageOf c D p := by
+  obtain ⟨h1, h2, h3, h4, h5, h6⟩ := final_image c D hwf ops hg hcl
+  have hlen := fun k hk => (inv2_run c D hwf (init c) ops hg (inv1_init c) (inv2_init c D)).loc k hk |>.doneLen
+  generalize run c (init c) ops = s at *
+  have hfit := hwf.hdrFits
+  unfold imageOf
+  split
+  · exact h2 p (by assumption)
+  · split
+    · have := h3 (p - c.hdr.len) (by omega)
+      rwa [show c.hdr.len + (p - c.hdr.len) = p by omega] at this
+    · split
+      · have := h4 (p - c.xmlOff) (by omega)
+        rwa [show c.xmlOff + (p - c.xmlOff) = p by omega] at this
+      · split
+        · have := h5 (p - (c.xmlOff + c.xml.len)) (by omega)
+          rwa [show c.xmlOff + c.xml.len + (p - (c.xmlOff + c.xml.len)) = p by omega] at this
+        · split
+          · rename_i k hf
+            have hmem := List.mem_of_find?_eq_some hf
+            have hpk := List.find?_some hf
+            simp only [List.mem_range] at hmem
+            simp only [decide_eq_true_eq] at hpk
+            have := h1 k hmem (p - (c.item k).off) (by omega)
+            rw [show (c.item k).off + (p - (c.item k).off) = p by omega] at this
+            rw [this]
+            have hq : (p - (c.item k).off) / (c.item k).rowBytes < (s.el k).done.length := by
+              rw [hlen k hmem, Nat.div_lt_iff_lt_mul (hwf.rowPos k hmem), ← hwf.sizeRows k hmem]; omega
+            simp [cellOf, rowDone_of_full _ (by rw [hco k hmem, hlen k hmem]) _ hq]
+          · rename_i hf
+            rw [List.find?_eq_none] at hf
+            refine h6 p ⟨by omega, by omega, fun k hk hr => ?_⟩
+            have := hf k (by simpa using hk)
+            simp only [decide_eq_true_eq] at this
+            exact this hr
+
+/-- **independence of order, chunking, flush placement and protocol**: two complete good histories for the same layout and content
+    (the second one possibly through the other delivery protocol) leave the same byte at every position -/
+theorem order_chunking_independent (c : Cfg α) (b : Bool) (D : Nat → Nat → α) (hwf : WF c) (ops1 ops2 : List (Op α))
+    (hg1 : GoodRun c D (init c) ops1) (hc1 : (run c (init c) ops1).closed = true) (hco1 : Complete c (run c (init c) ops1))
+    (hg2 : GoodRun { c with inMem := b } D (init { c with inMem := b }) ops2)
+    (hc2 : (run { c with inMem := b } (init { c with inMem := b }) ops2).closed = true)
+    (hco2 : Complete { c with inMem := b } (run { c with inMem := b } (init { c with inMem := b }) ops2)) (p : Nat) :
+    rd c (run c (init c) ops1) p = rd { c with inMem := b } (run { c with inMem := b } (init { c with inMem := b }) ops2) p := by
+  have hwf2 : WF { c with inMem := b } :=
+    { hdrFits := hwf.hdrFits, afterXml := hwf.afterXml, disjoint := hwf.disjoint, sizeRows := hwf.sizeRows, oneRow := hwf.oneRow,
+      rowPos := hwf.rowPos, kinds := hwf.kinds }
+  rw [complete_image c D hwf ops1 hg1 hc1 hco1 p, complete_image _ D hwf2 ops2 hg2 hc2 hco2 p]
+  rfl
+
 end Sarpy.Props.C09
